@@ -791,6 +791,14 @@ Definition shared_subnets (guarded : bool) (a b : list N) (max_len : nat) : opti
   if Nat.eqb (length a) 0 || Nat.eqb (length b) 0 then Some []
   else shared_loop guarded a b 0 ml [].
 
+(* records.DomainTypeEntry.DecodeRLP: the "domaintype" entry of a peer's node record, after the RLP
+   string has been read into a byte slice [bs]; the slice is converted to a [4]byte.  checked = the
+   F12 repair (length test before the conversion).  None = the conversion panics; Some None = error;
+   longer strings are cut (the conversion takes the first four bytes). *)
+Definition decode_domain_type (checked : bool) (bs : list N) : option (option (list N)) :=
+  if Nat.ltb (length bs) 4 then (if checked then Some None else None)
+  else Some (Some (firstn 4 bs)).
+
 (* SignedNodeInfo.UnmarshalRecord after json.Unmarshal: the entries are taken by index only after
    the length test; each field decoder is an oracle bit.  None = index out of range. *)
 Definition signed_node_info_post_json (n_entries : nat) (b64_0 b64_1 int_2 b64_4 ni_5 : bool)
